@@ -176,7 +176,7 @@ def _all_lines(events):
                 yield from _all_lines(a.events)
 
 
-@rule("C04.strict-emission", min_instances=8)
+@rule("C04.strict-emission", min_instances=8, props=["C07"])
 def strict_emission(ctx):
     """emitted variable declarations: strict_undefined -> every context look-up ends in NameError naming the identifier (no UNDEFINED default); otherwise the default is UNDEFINED; import namespaces are consulted before the context"""
     db = ctx.db
